@@ -206,6 +206,9 @@ func runC17(c *Ctx) {
 	ruleFreshTargets(c, p, "C17.fresh")
 	ruleScratchAlias(c, p, "C17.scratch")
 	ruleLimitSiblings(c, p, "C17.limits")
+	ruleStrLenUncapped(c, p, "C17.strlen")
+	ruleLostReceiverWrite(c, p, "C17.receiver")
+	ruleHeaderEveryColumn(c, p, "C17.descriptor")
 	ruleReadFull(c, p, "C17.readfull")
 	ruleVersionPassThrough(c, p, "C17.version-through")
 	ruleEnsureExact(c, p, "C17.ensure")
@@ -465,6 +468,10 @@ func rulePrims(c *Ctx, p *core.Program) {
 			continue
 		}
 		okPut := callsLE(put, q.binPut) && allocBytes(put) == q.bytes
+		// the one-call form: LittleEndian.AppendUintK appends exactly K/8 bytes by its contract
+		if !okPut && callsLE(put, "Append"+strings.TrimPrefix(q.binPut, "Put")) && allocBytes(put) == -1 {
+			okPut = true
+		}
 		okGet := callsLE(get, q.binGet) && readFullConst(get) == q.bytes
 		if okPut && okGet {
 			c.R.Ok(rule, key, cfg, p.Pos(put.Pos()), sprintf("%d bytes, little endian, both sides", q.bytes))
@@ -1303,4 +1310,180 @@ func ruleNoInventedFields(c *Ctx, p *core.Program, pairs []msgPair, rule string)
 		}
 	}
 	c.R.Floor(rule, cfg, n, 9)
+}
+
+// ruleStrLenUncapped (C01 / C17): the string length reader does not refuse what every encoder writes.
+func ruleStrLenUncapped(c *Ctx, p *core.Program, rule string) {
+	c.R.Rule(rule, "Reader.StrLen, through which every string and every String row is read, puts no constant upper bound below 2^31-1 on the length it returns: the encoders (PutString, ColStr.EncodeColumn) cannot refuse a value, so a bound borrowed from the row-count validator (100,000,000) makes a block with one longer String value encodable but undecodable")
+	cfg := p.Cfg.Name
+	fn := p.Method(core.PkgProto, "Reader", "StrLen")
+	if !c.must(p, "Reader.StrLen", fn != nil) {
+		return
+	}
+	key := core.FuncName(fn)
+	n := 0
+	for _, b := range fn.Blocks {
+		for _, in := range b.Instrs {
+			r, ok := in.(*ssa.Return)
+			if !ok || len(r.Results) != 2 {
+				continue
+			}
+			if k, isC := core.ConstInt(r.Results[0]); isC && k == 0 {
+				continue // failure exits
+			}
+			n++
+			lims := upperLimits(fn, r.Results[0], r)
+			bad := false
+			for _, k := range lims {
+				if k < 1<<31-1 {
+					bad = true
+					c.R.Bad(rule, key, cfg, p.Pos(r.Pos()), sprintf("string lengths above %d are rejected on decode although the encoders write them", k))
+				}
+			}
+			if !bad {
+				c.R.Ok(rule, key, cfg, p.Pos(r.Pos()), "no constant upper bound on the returned length")
+			}
+		}
+	}
+	if n == 0 {
+		c.R.Unk(rule, key, cfg, p.Pos(fn.Pos()), "no success return found")
+	}
+}
+
+// ruleLostReceiverWrite (C17 / C19): a method that fills its receiver has a pointer receiver.
+func ruleLostReceiverWrite(c *Ctx, p *core.Program, rule string) {
+	c.R.Rule(rule, "in packages proto and ch, a method with a value receiver does not store into a field of that receiver unless the modified copy is used as a whole afterwards (returned, assigned, passed on): a DecodeAware or Infer that lost the `*` of its receiver still reads the bytes and validates the type, but fills a copy - the caller's struct keeps its zero value (table name empty, interval scale Second) and the call reports success")
+	cfg := p.Cfg.Name
+	n, nm := 0, 0
+	for _, fn := range p.Funcs() {
+		if pkgOf(fn) == nil || (pkgOf(fn).Path() != core.PkgProto && pkgOf(fn).Path() != core.PkgCh) || fn.Blocks == nil || fn.Signature.Recv() == nil || len(fn.Params) == 0 {
+			continue
+		}
+		if fn.Synthetic != "" {
+			continue
+		}
+		rt := fn.Signature.Recv().Type()
+		if _, isPtr := rt.Underlying().(*types.Pointer); isPtr {
+			continue
+		}
+		if _, isStruct := rt.Underlying().(*types.Struct); !isStruct {
+			continue
+		}
+		nm++
+		// the spill slot of the receiver
+		var slot *ssa.Alloc
+		for _, r := range *fn.Params[0].Referrers() {
+			if st, ok := r.(*ssa.Store); ok && st.Val == ssa.Value(fn.Params[0]) {
+				if al, ok := st.Addr.(*ssa.Alloc); ok {
+					slot = al
+				}
+			}
+		}
+		if slot == nil {
+			continue
+		}
+		var stores []*ssa.Store
+		wholeUse := false
+		for _, r := range *slot.Referrers() {
+			switch x := r.(type) {
+			case *ssa.FieldAddr:
+				for _, r2 := range *x.Referrers() {
+					if st, ok := r2.(*ssa.Store); ok && st.Addr == ssa.Value(x) {
+						stores = append(stores, st)
+					}
+				}
+			case *ssa.UnOp:
+				if x.Op == token.MUL {
+					wholeUse = true // the copy is read as a whole: returned or handed on
+				}
+			case *ssa.Store, *ssa.DebugRef:
+			default:
+				wholeUse = true // address escapes (method call with pointer receiver on the copy, closure)
+			}
+		}
+		if len(stores) == 0 {
+			continue
+		}
+		n++
+		key := core.FuncName(fn)
+		if wholeUse {
+			c.R.Ok(rule, key, cfg, p.Pos(fn.Pos()), "the modified copy is used as a whole afterwards")
+		} else {
+			c.R.Bad(rule, key, cfg, p.Pos(stores[0].Pos()), sprintf("%s has a value receiver and stores into %d field(s) of it; the copy is dropped on return, the caller's value is never filled", fn.Name(), len(stores)))
+		}
+	}
+	c.R.Count("value-receiver methods on structs["+cfg+"]", nm)
+	c.R.Floor(rule, cfg, nm, 20)
+}
+
+// ruleHeaderEveryColumn (C17 / C02 / C14): a block writes the descriptor of every column, rows or not.
+func ruleHeaderEveryColumn(c *Ctx, p *core.Program, rule string) {
+	c.R.Rule(rule, "in the block encoders (Block.EncodeRawBlock, Block.WriteBlock) no iteration of the column loop returns to the loop header without having written the column's descriptor (InputColumn.EncodeStart, directly or in the closure handed to ChainBuffer): the `no rows, nothing to encode` shortcut belongs behind the descriptor - a header block (N columns, 0 rows) that announces N columns and describes none makes the decoder read the next packet as column names")
+	cfg := p.Cfg.Name
+	n := 0
+	isStart := func(f *types.Func) bool { return core.IsMethod(f, core.PkgProto, "InputColumn", "EncodeStart") }
+	for _, mn := range []string{"EncodeRawBlock", "WriteBlock"} {
+		fn := p.Method(core.PkgProto, "Block", mn)
+		if fn == nil || fn.Blocks == nil {
+			c.R.Unk(rule, "Block."+mn, cfg, "", "method missing")
+			continue
+		}
+		writes := func(in ssa.Instruction) bool {
+			call, ok := in.(ssa.CallInstruction)
+			if !ok {
+				return false
+			}
+			if f := core.CalleeFunc(call); f != nil && isStart(f) {
+				return true
+			}
+			for _, a := range call.Common().Args {
+				if mc, ok := a.(*ssa.MakeClosure); ok {
+					if cf, ok := mc.Fn.(*ssa.Function); ok && core.ReachesCallee(cf, isStart, 1) {
+						return true
+					}
+				}
+			}
+			if sf := core.StaticFn(call); sf != nil && sf.Blocks != nil && pkgOf(sf) != nil && pkgOf(sf).Path() == core.PkgProto && sf != fn && core.ReachesCallee(sf, isStart, 1) {
+				return true
+			}
+			return false
+		}
+		found := false
+		for _, b := range fn.Blocks {
+			for _, in := range b.Instrs {
+				if !writes(in) || !core.InLoop(in) {
+					continue
+				}
+				hdr := core.LoopHeader(in)
+				if hdr == nil {
+					continue
+				}
+				found = true
+				n++
+				key := "Block." + mn
+				bad := false
+				for _, sb := range hdr.Succs {
+					if !hdr.Dominates(sb) || sb == hdr {
+						continue
+					}
+					if len(core.ReachAvoiding(core.Point{B: sb, I: -1}, func(x ssa.Instruction) bool { return x.Block() == hdr }, nil, nil)) == 0 {
+						continue
+					}
+					w := core.ReachAvoiding(core.Point{B: sb, I: -1}, func(x ssa.Instruction) bool { return x.Block() == hdr }, writes, nil)
+					if len(w) > 0 {
+						bad = true
+						c.R.Bad(rule, key, cfg, p.Pos(in.Pos()), "an iteration of the column loop can go on to the next column without writing this column's descriptor: a block with zero rows announces its columns and describes none", p.TrailString(w[0])...)
+						break
+					}
+				}
+				if !bad {
+					c.R.Ok(rule, key, cfg, p.Pos(in.Pos()), "every iteration writes the column descriptor")
+				}
+			}
+		}
+		if !found {
+			c.R.Unk(rule, "Block."+mn, cfg, p.Pos(fn.Pos()), "no EncodeStart inside a loop found")
+		}
+	}
+	c.R.Count("block encoder column loops", n)
 }
